@@ -29,6 +29,8 @@ type PropCheck struct {
 	Bounds    func(tier string) map[string]interface{}
 	MaxPaths  int
 	TimeoutMs func(tier string) int
+	NativeRace bool // replay violations under the race detector; a reported data race confirms
+	Explain    string
 }
 
 type CheckCtx struct {
@@ -69,6 +71,7 @@ type Violation struct {
 	Kind    string            `json:"kind"` // "assert" | "panic"
 	Replay  string            `json:"replay,omitempty"`
 	Confirmed bool            `json:"confirmed"`
+	Detail    string          `json:"detail,omitempty"`
 	NativeOut string          `json:"native_out,omitempty"`
 }
 
@@ -306,7 +309,7 @@ func (c *CheckCtx) run() int {
 					continue
 				}
 				seen[key] = true
-				c.Viol = append(c.Viol, Violation{Key: key, Harness: r.Name, Msg: a.Msg, Witness: a.Model, Kind: "assert"})
+				c.Viol = append(c.Viol, Violation{Key: key, Harness: r.Name, Msg: a.Msg, Witness: a.Model, Kind: "assert", Detail: strings.Join(firstN(p.Notes, 4), "; ")})
 			}
 		}
 		for _, p := range r.PanicPaths {
@@ -336,7 +339,7 @@ func (c *CheckCtx) run() int {
 	for i := range c.Viol {
 		v := &c.Viol[i]
 		if !v.Confirmed {
-			c.Problems = append(c.Problems, fmt.Sprintf("UNCONFIRMED-COUNTEREXAMPLE %s (native run did not reproduce: %s)", v.Key, firstLine(v.NativeOut)))
+			c.Problems = append(c.Problems, fmt.Sprintf("UNCONFIRMED-COUNTEREXAMPLE %s (native run did not reproduce: %s) %s", v.Key, firstLine(v.NativeOut), v.Detail))
 			continue
 		}
 		if what, ok := known[c.P.ID+"|"+v.Key]; ok {
@@ -369,6 +372,13 @@ func (c *CheckCtx) run() int {
 	c.writeEvidence(nviol)
 	c.summary(exit)
 	return exit
+}
+
+func firstN(l []string, n int) []string {
+	if len(l) > n {
+		return l[:n]
+	}
+	return l
 }
 
 func firstLine(s string) string {
@@ -465,6 +475,9 @@ func (c *CheckCtx) writeEvidence(nviol int) {
 	}
 	if c.P.Bounds != nil {
 		cov["bounds"] = c.P.Bounds(c.Tier)
+	}
+	if c.P.Explain != "" {
+		cov["explanation"] = c.P.Explain
 	}
 	for k, v := range c.Extra {
 		cov[k] = v
@@ -613,7 +626,12 @@ func (c *CheckCtx) runNative(pkg string, jobs []nativeJob) (map[string]nativeRes
 	jb, _ := json.Marshal(jobs)
 	os.WriteFile(jf, jb, 0o644)
 	of := jf + ".out"
-	cmd := exec.Command("timeout", "600", "go", "test", "-vet=off", "-count=1", "-overlay", ovf, "-run", "^TestVerifReplay$", "./"+pkg)
+	argv := []string{"600", "go", "test", "-vet=off", "-count=1", "-overlay", ovf, "-run", "^TestVerifReplay$"}
+	if c.P.NativeRace {
+		argv = append(argv, "-race")
+	}
+	argv = append(argv, "./"+pkg)
+	cmd := exec.Command("timeout", argv...)
 	cmd.Dir = c.Repo
 	cmd.Env = append(os.Environ(), "GOFLAGS=-mod=mod", "GOPROXY=off", "GOSUMDB=off", "GOTOOLCHAIN=local", "VERIF_JOBS="+jf, "VERIF_JOBS_OUT="+of)
 	txt, err := cmd.CombinedOutput()
@@ -625,7 +643,11 @@ func (c *CheckCtx) runNative(pkg string, jobs []nativeJob) (map[string]nativeRes
 	if err := json.Unmarshal(ob, &rs); err != nil {
 		return out, err
 	}
+	race := c.P.NativeRace && strings.Contains(string(txt), "DATA RACE")
 	for _, r := range rs {
+		if race && strings.HasPrefix(r.ID, "viol-") && r.Panic == "" {
+			r.Panic = "DATA RACE reported by the race detector"
+		}
 		out[r.ID] = r
 	}
 	return out, nil
@@ -677,12 +699,29 @@ func (c *CheckCtx) nativePhase() error {
 	}
 	results := map[string]nativeRes{}
 	for pkg, js := range jobs {
-		rs, err := c.runNative(pkg, js)
-		if err != nil {
-			return err
+		batches := [][]nativeJob{js}
+		if c.P.NativeRace {
+			var vj, tj []nativeJob
+			for _, j := range js {
+				if strings.HasPrefix(j.ID, "viol-") {
+					vj = append(vj, j)
+				} else {
+					tj = append(tj, j)
+				}
+			}
+			batches = [][]nativeJob{tj}
+			for _, j := range vj {
+				batches = append(batches, []nativeJob{j}) // one run per violation: a race report is not attributable otherwise
+			}
 		}
-		for k, v := range rs {
-			results[k] = v
+		for _, b := range batches {
+			rs, err := c.runNative(pkg, b)
+			if err != nil {
+				return err
+			}
+			for k, v := range rs {
+				results[k] = v
+			}
 		}
 	}
 	for i := range c.Viol {
